@@ -82,6 +82,133 @@ pub struct Scn {
     /// crowd scenario: thousands of simultaneously tracked connections whose addresses come from a structured family
     #[serde(default)]
     pub crowd: Option<Crowd>,
+    /// noise scenario: tens of thousands of frames that belong to no connection at all and are all different
+    #[serde(default)]
+    pub noise: Option<Noise>,
+}
+
+/// `n` distinct frames no analyzer can use: IPv4 fragments of TCP datagrams, other transport protocols, TCP
+/// segments with impossible flag combinations, truncated frames, foreign EtherTypes. None of them opens or belongs
+/// to a connection, so nothing about them may be retained: memory must not grow with their number.
+#[derive(Clone, Debug, Serialize, Deserialize)]
+pub struct Noise {
+    pub n: usize,
+    pub seed: u64,
+    /// bit set of the frame kinds in use (0..6)
+    pub kinds: u8,
+}
+
+fn noise_frame(nz: &Noise, i: usize) -> Vec<u8> {
+    let mut r = Rng::new(nz.seed ^ crate::rng::mix64(i as u64 + 1));
+    let kinds: Vec<u8> = (0..6u8).filter(|k| nz.kinds & (1 << k) != 0).collect();
+    let k = if kinds.is_empty() { 0 } else { kinds[i % kinds.len()] };
+    let h = crate::gen::tcp::Host { profile: i % 4, ts_hz: 1000, ts_base: i as u32, ttl: 64 };
+    let v6 = k == 3;
+    let (c, sv) = if v6 {
+        (Endpoint::v6(1 + (i % 60000) as u16, 1024 + (i % 50000) as u16), Endpoint::v6(0x900, 80))
+    } else {
+        (Endpoint::v4(10, 20 + (i >> 16) as u8, (i >> 8) as u8, i as u8, 1024 + (i % 60000) as u16), Endpoint::v4(10, 4, r.u8(), 1 + r.below(250) as u8, *r.pick(&[80u16, 443, 8080])))
+    };
+    let mut seg = if r.chance(1, 2) { crate::gen::tcp::syn(&h, c, sv, r.u32(), 0) } else { crate::gen::tcp::data(&h, c, sv, r.u32(), r.u32(), r.bytes(r.clone().urange(1, 64)), 0, 1, pkt::ACK | pkt::PSH) };
+    if k == 2 {
+        // flag combinations no TCP sends: SYN+FIN, SYN+RST, none at all, everything
+        seg.flags = *r.pick(&[pkt::SYN | pkt::FIN, pkt::SYN | pkt::RST, 0u8, 0xff, pkt::SYN | pkt::FIN | pkt::RST, pkt::FIN | pkt::RST | 0x20]);
+    }
+    let mut f = pkt::frame(&seg, Framing::Ethernet);
+    let ip = 14;
+    match k {
+        0 => {
+            // a fragment: MF set and/or a fragment offset, any identification
+            let id = r.u16().to_be_bytes();
+            f[ip + 4] = id[0];
+            f[ip + 5] = id[1];
+            let off = if r.chance(1, 3) { 0 } else { 1 + r.below(8000) as u16 };
+            let mf = if off == 0 || r.chance(1, 2) { 0x2000u16 } else { 0 };
+            let w = (mf | off).to_be_bytes();
+            f[ip + 6] = w[0];
+            f[ip + 7] = w[1];
+        }
+        1 => {
+            // another transport protocol
+            f[ip + 9] = *r.pick(&[1u8, 2, 17, 17, 47, 50, 51, 89, 132, 136, 255, r.clone().u8() | 0x40]);
+        }
+        3 => {
+            // IPv6 with another next header
+            f[ip + 6] = *r.pick(&[0u8, 17, 43, 44, 44, 58, 59, 60, 135]);
+        }
+        4 => {
+            let n = r.usize_below(f.len());
+            f.truncate(n);
+        }
+        5 => {
+            let et = *r.pick(&[0x0806u16, 0x8035, 0x88cc, 0x8847, 0x0842, 0x22f0]);
+            f[12] = (et >> 8) as u8;
+            f[13] = et as u8;
+        }
+        _ => {}
+    }
+    f
+}
+
+/// Noise scenario: nothing in it is a connection, so retained memory has to stay where it was.
+fn run_noise(s: &Scn, nz: &Noise, st: &mut RunStats) -> Result<(), Violation> {
+    clock::arm(1_700_000_000_000);
+    let cfg = SutCfg::new(s.kind, s.cap);
+    let mut sut = Sut::new(&cfg).map_err(|e| Violation::new("harness-error", "", e))?;
+    let key = format!("{}:noise", s.kind.name());
+    // warm the analyzer with one ordinary connection before the baseline (lazily created tables)
+    {
+        let h = crate::gen::tcp::Host { profile: 0, ts_hz: 1000, ts_base: 77, ttl: 64 };
+        let (c, sv) = (Endpoint::v4(10, 3, 0, 1, 40000), Endpoint::v4(10, 4, 0, 1, 80));
+        for seg in [crate::gen::tcp::syn(&h, c, sv, 1000, 0), crate::gen::tcp::syn_ack(&h, c, sv, 5000, 1000, 0, 1)] {
+            let _ = sut.deliver(&pkt::frame(&seg, Framing::Ethernet));
+        }
+        for i in 0..64 {
+            let _ = sut.deliver(&noise_frame(nz, nz.n + i));
+        }
+    }
+    let base = alloc::snap().live();
+    let live_bound = L_PER_CONN * s.cap.max(1) as i64 + SLACK;
+    let mut lives: Vec<i64> = Vec::with_capacity(nz.n);
+    let mut results = 0u64;
+    for i in 0..nz.n {
+        let frame = noise_frame(nz, i);
+        clock::advance_ns(s.gap_ns);
+        let before = alloc::snap();
+        let out = sut.deliver(&frame);
+        let after = alloc::snap();
+        results += out.obs.len() as u64;
+        drop(out);
+        st.packets += 1;
+        let alloc_i = after.allocated - before.allocated;
+        if alloc_i > A_CONST + B_PER_BYTE * frame.len() as u64 {
+            return Err(Violation::new("per-packet-work", key, format!("frame {} of the noise: handling one {} B frame allocated {} KiB", i, frame.len(), alloc_i / 1024)));
+        }
+        let live_i = alloc::snap().live() - base;
+        lives.push(live_i);
+        if i % 1024 == 0 {
+            st.ev_u64((live_i.max(0) as u64) / 65536);
+        }
+        if live_i > live_bound {
+            return Err(Violation::new("retained-memory", key, format!("after {} frames that belong to no connection the analyzer retains {} KiB more than before them; bound {} connections x 512 KiB + 1 MiB = {} KiB", i + 1, live_i / 1024, s.cap.max(1), live_bound / 1024)));
+        }
+    }
+    st.evals = 1;
+    st.fault_n("frames_that_belong_to_no_connection", nz.n as u64);
+    st.probe_n("results_from_noise", results);
+    if lives.len() >= 200 {
+        let tenth = lives.len() / 10;
+        let mut first: Vec<u64> = lives[..tenth].iter().map(|x| (*x).max(0) as u64).collect();
+        let mut last: Vec<u64> = lives[lives.len() - tenth..].iter().map(|x| (*x).max(0) as u64).collect();
+        let (mf, ml) = (median(&mut first) as i64, median(&mut last) as i64);
+        let allowed = L_PER_CONN * s.cap.max(1) as i64;
+        if ml - mf > allowed {
+            return Err(Violation::new("retained-memory-grows", key, format!("retained memory grew from {} KiB (median over the first tenth of {} connection-less frames) to {} KiB (last tenth); allowed growth {} KiB", mf / 1024, lives.len(), ml / 1024, allowed / 1024)));
+        }
+    }
+    st.sim_ns = clock::mono_ns();
+    st.nontrivial = true;
+    Ok(())
 }
 
 /// `n` connections (SYN with a timestamp option each) that are all tracked at once (capacity >= n), between
@@ -208,81 +335,15 @@ fn median(v: &mut Vec<u64>) -> u64 {
     v[v.len() / 2]
 }
 
-impl Prop for C11 {
-    type Scn = Scn;
-    const ID: &'static str = "C11";
-    const ENGINE: &'static str = crate::NETSIM_ENGINE;
-
-    fn rule() -> &'static str {
-        "one evaluation = one delivered segment of a long never-fingerprinting (or contrast) connection, with the counting allocator sampled around it; bounds: live - baseline <= connections x 512 KiB + 1 MiB, live(last tenth) - live(first tenth) <= connections x 512 KiB, allocated per packet <= 4 MiB + 64 x packet length, and the median per-packet allocation of a connection's last tenth <= 2 x its first tenth + 2 MiB; non-trivial = the run delivers >= 500 segments on at least one connection that never yields a fingerprint; distinct = distinct event-log hash"
-    }
-
-    fn runs(tier: Tier) -> u64 {
-        tier.pick(320, 1_500)
-    }
-
-    fn run_wall_limit_s() -> u64 {
-        120
-    }
-
-    fn logging_allowed() -> bool {
-        false
-    }
-
-    fn generate(r: &mut Rng, tier: Tier, _idx: u64) -> Scn {
-        let kind = *r.pick(&Kind::ALL);
-        let cap = *r.pick(&[1usize, 4, 64, 1000]);
-        let m = match r.below(4) {
-            0 => 1,
-            1 => r.urange(2, 4),
-            _ => r.urange(1, (4 * cap).min(12)),
-        };
-        let mut conns = vec![];
-        for i in 0..m {
-            let traffic = match kind {
-                Kind::Tls => *r.pick(&[Traffic::TlsHugeDeclared, Traffic::TlsManyNonHelloRecords, Traffic::TlsManyNonHelloRecords, Traffic::TlsAppDataAfterNonHello, Traffic::TlsAppDataAfterNonHello, Traffic::BinaryAfterSyn, Traffic::RandomNoSyn, Traffic::Completing]),
-                Kind::Tcp => *r.pick(&[Traffic::BinaryAfterSyn, Traffic::EndlessHttpHead, Traffic::RandomNoSyn, Traffic::Completing]),
-                _ => *r.pick(&[Traffic::EndlessHttpHead, Traffic::EndlessFoldedHead, Traffic::TlsManyNonHelloRecords, Traffic::WrongKindThenEndless, Traffic::WrongKindThenEndless, Traffic::EndlessHttpResponseHead, Traffic::BinaryAfterSyn, Traffic::TlsHugeDeclared, Traffic::TlsAppDataAfterNonHello, Traffic::RandomNoSyn, Traffic::Completing]),
-            };
-            let n_segs = match tier {
-                Tier::Quick => *r.pick(&[200usize, 600, 1000, 2000]),
-                Tier::Thorough => *r.pick(&[1000usize, 5000, 20_000, 100_000]),
-            } / if m > 4 { 4 } else { 1 };
-            conns.push(LongConn {
-                traffic,
-                client: Endpoint::v4(10, 3, (i / 200) as u8, (i % 200) as u8 + 1, 40000 + i as u16),
-                server: Endpoint::v4(10, 4, 0, 1, *r.pick(&[80u16, 443, 8080])),
-                seg_size: *r.pick(&[1usize, 64, 536, 1200, 1460, 1460]),
-                n_segs: n_segs.max(50),
-                payload_seed: r.next_u64(),
-            });
-        }
-        let scn = Scn { kind, cap, conns, gap_ns: *r.pick(&[1_000u64, 100_000, 5_000_000]), idle_every: *r.pick(&[0usize, 0, 500, 2000]), idle_ns: *r.pick(&[21_000_000_000u64, 61_000_000_000, 601_000_000_000]), churn: None, crowd: None };
-        // one scenario in eight is a crowd: every connection tracked at once, addresses from a structured family
-        if r.chance(1, 8) {
-            let n = match tier {
-                Tier::Quick => r.urange(6000, 12000),
-                Tier::Thorough => r.urange(10_000, 40_000),
-            };
-            return Scn { kind: *r.pick(&[Kind::Tcp, Kind::Tcp, Kind::Unified, Kind::Http, Kind::Tls]), cap: n + 64, conns: vec![], crowd: Some(Crowd { n, family: *r.pick(&[0u8, 0, 1, 1, 2, 3, 4, 5]), seed: r.next_u64(), with_replies: r.chance(1, 2) }), ..scn };
-        }
-        // one scenario in twelve is a population scenario
-        if r.chance(1, 12) {
-            let n_values = match tier {
-                Tier::Quick => r.urange(3000, 6000),
-                Tier::Thorough => r.urange(6000, 40_000),
-            };
-            return Scn { cap: *r.pick(&[1usize, 2, 4]), conns: vec![], churn: Some(Churn { n_values, repeats: r.urange(1, 3), value_len: *r.pick(&[200usize, 800, 1500]), seed: r.next_u64(), distance: *r.pick(&[0usize, 1, 7, 100]), on_syn: r.chance(1, 3) }), ..scn };
-        }
-        scn
-    }
-
-    fn run(s: &Scn, st: &mut RunStats) -> Result<(), Violation> {
+fn run_once(s: &Scn, st: &mut RunStats) -> Result<(), Violation> {
         if let Some(ch) = &s.churn {
             return run_churn(s, ch, st);
         }
         if let Some(cr) = &s.crowd {
             return run_crowd(s, cr, st);
+        }
+        if let Some(nz) = &s.noise {
+            return run_noise(s, nz, st);
         }
         clock::arm(1_700_000_000_000);
         let cfg = SutCfg::new(s.kind, s.cap);
@@ -422,12 +483,132 @@ impl Prop for C11 {
             st.probe("contrast_connection_fingerprinted");
         }
         Ok(())
+}
+
+impl Prop for C11 {
+    type Scn = Scn;
+    const ID: &'static str = "C11";
+    const ENGINE: &'static str = crate::NETSIM_ENGINE;
+
+    fn rule() -> &'static str {
+        "one evaluation = one delivered segment of a long never-fingerprinting (or contrast) connection, with the counting allocator sampled around it; bounds: live - baseline <= connections x 512 KiB + 1 MiB, live(last tenth) - live(first tenth) <= connections x 512 KiB, allocated per packet <= 4 MiB + 64 x packet length, and the median per-packet allocation of a connection's last tenth <= 2 x its first tenth + 2 MiB; non-trivial = the run delivers >= 500 segments on at least one connection that never yields a fingerprint; distinct = distinct event-log hash"
+    }
+
+    fn runs(tier: Tier) -> u64 {
+        tier.pick(320, 1_500)
+    }
+
+    fn run_wall_limit_s() -> u64 {
+        120
+    }
+
+    fn logging_allowed() -> bool {
+        false
+    }
+
+    fn generate(r: &mut Rng, tier: Tier, _idx: u64) -> Scn {
+        let kind = *r.pick(&Kind::ALL);
+        let cap = *r.pick(&[1usize, 4, 64, 1000]);
+        let m = match r.below(4) {
+            0 => 1,
+            1 => r.urange(2, 4),
+            _ => r.urange(1, (4 * cap).min(12)),
+        };
+        let mut conns = vec![];
+        for i in 0..m {
+            let traffic = match kind {
+                Kind::Tls => *r.pick(&[Traffic::TlsHugeDeclared, Traffic::TlsManyNonHelloRecords, Traffic::TlsManyNonHelloRecords, Traffic::TlsAppDataAfterNonHello, Traffic::TlsAppDataAfterNonHello, Traffic::BinaryAfterSyn, Traffic::RandomNoSyn, Traffic::Completing]),
+                Kind::Tcp => *r.pick(&[Traffic::BinaryAfterSyn, Traffic::EndlessHttpHead, Traffic::RandomNoSyn, Traffic::Completing]),
+                _ => *r.pick(&[Traffic::EndlessHttpHead, Traffic::EndlessFoldedHead, Traffic::TlsManyNonHelloRecords, Traffic::WrongKindThenEndless, Traffic::WrongKindThenEndless, Traffic::EndlessHttpResponseHead, Traffic::BinaryAfterSyn, Traffic::TlsHugeDeclared, Traffic::TlsAppDataAfterNonHello, Traffic::RandomNoSyn, Traffic::Completing]),
+            };
+            let n_segs = match tier {
+                Tier::Quick => *r.pick(&[200usize, 600, 1000, 2000]),
+                Tier::Thorough => *r.pick(&[1000usize, 5000, 20_000, 100_000]),
+            } / if m > 4 { 4 } else { 1 };
+            conns.push(LongConn {
+                traffic,
+                client: Endpoint::v4(10, 3, (i / 200) as u8, (i % 200) as u8 + 1, 40000 + i as u16),
+                server: Endpoint::v4(10, 4, 0, 1, *r.pick(&[80u16, 443, 8080])),
+                seg_size: *r.pick(&[1usize, 64, 536, 1200, 1460, 1460]),
+                n_segs: n_segs.max(50),
+                payload_seed: r.next_u64(),
+            });
+        }
+        let scn = Scn { kind, cap, conns, gap_ns: *r.pick(&[1_000u64, 100_000, 5_000_000]), idle_every: *r.pick(&[0usize, 0, 500, 2000]), idle_ns: *r.pick(&[21_000_000_000u64, 61_000_000_000, 601_000_000_000]), churn: None, crowd: None, noise: None };
+        // one scenario in eight is a crowd: every connection tracked at once, addresses from a structured family
+        if r.chance(1, 8) {
+            let n = match tier {
+                Tier::Quick => r.urange(6000, 12000),
+                Tier::Thorough => r.urange(10_000, 40_000),
+            };
+            return Scn { kind: *r.pick(&[Kind::Tcp, Kind::Tcp, Kind::Unified, Kind::Http, Kind::Tls]), cap: n + 64, conns: vec![], crowd: Some(Crowd { n, family: *r.pick(&[0u8, 0, 1, 1, 2, 3, 4, 5]), seed: r.next_u64(), with_replies: r.chance(1, 2) }), ..scn };
+        }
+        // one scenario in sixteen is noise: frames that belong to no connection, all different, on a small analyzer
+        if r.chance(1, 16) {
+            let n = match tier {
+                Tier::Quick => r.urange(20_000, 50_000),
+                Tier::Thorough => r.urange(40_000, 200_000),
+            };
+            let kinds = if r.chance(1, 2) { 0x3f } else { 1 << r.below(6) as u8 };
+            return Scn { cap: *r.pick(&[1usize, 1, 2, 4]), conns: vec![], noise: Some(Noise { n, seed: r.next_u64(), kinds }), ..scn };
+        }
+        // one scenario in twelve is a population scenario
+        if r.chance(1, 12) {
+            let n_values = match tier {
+                Tier::Quick => r.urange(3000, 6000),
+                Tier::Thorough => r.urange(6000, 40_000),
+            };
+            return Scn { cap: *r.pick(&[1usize, 2, 4]), conns: vec![], churn: Some(Churn { n_values, repeats: r.urange(1, 3), value_len: *r.pick(&[200usize, 800, 1500]), seed: r.next_u64(), distance: *r.pick(&[0usize, 1, 7, 100]), on_syn: r.chance(1, 3) }), ..scn };
+        }
+        scn
+    }
+
+    fn timing_classes() -> &'static [&'static str] {
+        &["per-packet-time", "work-grows-with-tracked-connections"]
+    }
+
+    fn run(s: &Scn, st: &mut RunStats) -> Result<(), Violation> {
+        // a verdict on measured CPU time is confirmed by running the scenario twice more: a cost that is in the code
+        // is there every time, a hiccup of the machine (page faults of a cold process, time stolen from the VM) is not
+        let r = run_once(s, st);
+        if let Err(v) = &r {
+            if Self::timing_classes().contains(&v.class.as_str()) {
+                for _ in 0..2 {
+                    let mut st2 = RunStats::default();
+                    match run_once(s, &mut st2) {
+                        Err(v2) if v2.class == v.class => {}
+                        other => {
+                            st.probe("timing_verdict_not_confirmed_by_a_second_run");
+                            return other;
+                        }
+                    }
+                }
+            }
+        }
+        r
     }
 
     fn shrink(s: &Scn) -> Vec<Scn> {
         let mut out = vec![];
         if s.crowd.is_some() {
             // not shrunk: the verdict rests on a time ratio, and a smaller crowd only moves it towards the margin
+            return out;
+        }
+        if let Some(nz) = &s.noise {
+            if nz.n > 8000 {
+                let mut x = s.clone();
+                x.noise = Some(Noise { n: nz.n * 3 / 4, ..nz.clone() });
+                out.push(x);
+            }
+            if nz.kinds.count_ones() > 1 {
+                for k in 0..6u8 {
+                    if nz.kinds & (1 << k) != 0 {
+                        let mut x = s.clone();
+                        x.noise = Some(Noise { kinds: 1 << k, ..nz.clone() });
+                        out.push(x);
+                    }
+                }
+            }
             return out;
         }
         if let Some(ch) = &s.churn {
